@@ -205,6 +205,7 @@ fn shim_extend_iter%s(v: &mut Vec<StackFrame<'a>>, it: %s)
     rg.replace_all_re(r"(self\.remap_frame\(\w+\))\.peekable\(\)", r"shim_peekable(\1)", "R2",
                       why="RemappedFrameIter (verified in u1/u2) wrapped in Peekable: behind a shim that exposes the pending frames as a ghost sequence", min_count=0)
     rg.replace_all_re(r"peek_frames\.peek\(\)\.is_some\(\)", "shim_peek_is_some(&mut peek_frames)", "R2", why="Peekable::peek().is_some() == the iterator has a pending item", min_count=0)
+    rg.replace_all_re(r"peek_frames\.peek\(\)\.is_none\(\)", "!shim_peek_is_some(&mut peek_frames)", "R2", why="Peekable::peek().is_none() == the iterator has no pending item", min_count=0)
     rg.replace_all_re(r"frames\.extend\(peek_frames\);", "shim_extend_frames(&mut frames, peek_frames);", "R2", why="Vec::extend(iterator) appends the pending items in order", min_count=0)
     rg.replace_all_re(r"frames\.extend\((self\.remap_frame\(\w+\))\);", r"shim_extend_iter(&mut frames, \1);", "R2", why="Vec::extend(iterator) appends the pending items in order", min_count=0)
     u.emit(rg, prefix="""    fn region_frames_fold_step<'a>(&'a self, frames: Vec<StackFrame<'a>>, f: &StackFrame<'a>) -> (ret: Vec<StackFrame<'a>>)
